@@ -21,9 +21,10 @@ import os
 import random
 import re
 import sys
+import time
 
 from harness import common
-from harness.common import Run, zlist
+from harness.common import Run, zlist, zbytes
 
 SERVICE = 'svc'
 
@@ -85,9 +86,9 @@ def gen_line(rng):
     if r < 0.18:
         return rng.choice(['debug', ' debug x', 'debugger on', '#', '# a comment', '   ', '\t'])
     words = []
-    for _ in range(rng.randint(1, 9)):
+    for _ in range(rng.randint(1, 6)):
         words.append(rng.choice(['peer', 'announce', 'route', '10.0.0.0/24', 'next-hop', '1.2.3.4', '*', '[', ']', ',',
-                                 '[127.0.0.2,127.0.0.3]', 'community', '[65000:1', '65000:2]', '(', ')', 'a,b', 'x' * rng.randint(1, 30),
+                                 '[127.0.0.2,127.0.0.3]', 'community', '[65000:1', '65000:2]', '(', ')', 'a,b', 'x' * rng.randint(1, 12),
                                  'med', '100', '\x1c', '\x0b', 'as-path', '[1,2]']))
     sep = rng.choice([' ', ' ', ' ', '  ', '\t', ' \t '])
     line = sep.join(words)
@@ -99,7 +100,7 @@ def gen_line(rng):
 
 
 def gen_stream(rng, kind):
-    n = rng.choice([0, 1, 2, 3, 5, 8, 12, 20])
+    n = rng.choice([0, 1, 2, 3, 4, 6, 9])
     lines = [gen_line(rng) for _ in range(n)]
     if kind == 'long' and lines:
         lines[rng.randrange(len(lines))] = 'announce ' + 'y' * rng.choice([500, 1500, 3000])
@@ -126,7 +127,9 @@ def cut(rng, data: bytes, style):
 def gen_intake_case(rng, malformed):
     nsvc = rng.choice([1, 1, 2, 3])
     max_size = None
-    kind = rng.choice(['plain', 'plain', 'plain', 'long'])
+    style = rng.choice(['one', 'bytes', 'small', 'mixed'])
+    # the model's split is quadratic in the line length per read: long lines only with large reads
+    kind = rng.choice(['plain', 'plain', 'long']) if style in ('one', 'mixed') else 'plain'
     streams = [gen_stream(rng, kind) for _ in range(nsvc)]
     if malformed:
         what = rng.choice(['nonascii', 'oversize', 'oversize'])
@@ -136,8 +139,7 @@ def gen_intake_case(rng, malformed):
             streams[0] = bytes(s)
         else:
             max_size = rng.choice([8, 20, 40])
-    style = rng.choice(['one', 'bytes', 'small', 'mixed'])
-    if sum(len(s) for s in streams) > 2500 and style == 'bytes':
+    if sum(len(s) for s in streams) > 1200 and style == 'bytes':
         style = 'small'
     chunks = [cut(rng, s, style) for s in streams]
     # a schedule: interleave the per-service chunk lists and sprinkle pops
@@ -151,7 +153,7 @@ def gen_intake_case(rng, malformed):
             evs.append(['P'])
     for _ in range(rng.choice([0, 0, 3, 1000])):
         evs.append(['P'])
-    return {'streams': streams, 'evs': evs, 'max': max_size, 'malformed': malformed, 'style': style}
+    return {'streams': streams, 'evs': evs, 'max': max_size, 'malformed': malformed, 'style': style, 'long': kind == 'long'}
 
 
 def run_intake_impl(case):
@@ -181,7 +183,7 @@ def run_intake_impl(case):
 
 
 def zs(s) -> str:
-    return zlist(s if isinstance(s, (bytes, bytearray)) else s.encode('latin-1'))
+    return zbytes(s if isinstance(s, (bytes, bytearray)) else s.encode('latin-1'))
 
 
 INTAKE_HEADER = """From Coq Require Import ZArith Bool List.
@@ -290,7 +292,7 @@ def gen_selector(rng, version):
 
 
 ATTR_BAD = ['med abc', 'local-preference x', 'origin bogus', 'community [ bogus ]', 'as-path [ a ]', 'next-hop 1.2.3', 'med']
-PREFIX_BAD = ['10.0.0.0/33', '300.0.0.0/24', 'bogus', '10.0.0/24/1', '10.0.0.0/2x']
+PREFIX_BAD = ['10.0.0.0/33', '300.0.0.0/24', 'bogus', '10.0.0/24/1', '10.0.0.0/40']
 
 
 def gen_route_body(rng):
@@ -390,7 +392,7 @@ def gen_command(rng, version, grouping):
         c.update(line=rng.choice(v6 if version == 6 else v4), kind='noop', ops=[], apriori='valid')
         return c
     if r < 0.95:
-        c.update(line=rng.choice(['bogus', 'peer', 'peer *', 'neighbor', 'neighbor 127.0.0.2', 'rib', 'rib flush', 'announce', 'daemon', 'session ack',
+        c.update(line=rng.choice(['bogus', 'peer', 'peer *', 'neighbor', 'neighbor 127.0.0.2', 'rib', 'rib frob', 'announce', 'daemon', 'session ack',
                                   'show', 'peer 127.0.0.2 local-as', 'peer [ 127.0.0.2', 'flush adj-rib', 'neighbor 127.0.0.2 flush adj-rib out']),
                  kind='unknown', apriori='unknown')
         return c
@@ -706,10 +708,18 @@ def outcome_of(st, c, version):
     if not term:
         # acknowledgements are off (or the reply is missing): nothing to observe, class from what the harness knows
         observed_error = c['apriori'] in ('invalid', 'unknown', 'refused') or (c['kind'] == 'group' and st.get('gops') is None)
+        if c['kind'] == 'route6-self':
+            # "next-hop self" on an IPv6 route resolves on the IPv6 session only: refused as soon as an IPv4 session is selected
+            targets = st['expect_match'] if st['expect_match'] is not None else [n['ip'] for n in NEIGHBORS]
+            observed_error = any(':' not in a for a in targets)
     if c['kind'] == 'unknown':
         return ('Unknown', 'unknown') if observed_error else (None, 'unknown-accepted')
     sel = st['expect_match']
     if c['defs'] is not None and not sel:
+        if c['kind'] in ('group-inline', 'routes') and not observed_error:
+            # these two handlers are given the empty peer list and do nothing with it (they are not in
+            # the dispatcher's needs-peers set): accepted, nothing applied
+            return 'Ok [] []', 'ok-nobody'
         return 'NoMatchingPeers', 'no-matching-peers'
     if observed_error:
         return 'ParseFail', 'parse-fail' if c['apriori'] != 'valid' else 'refused-valid'
@@ -808,14 +818,14 @@ def check(tier, seed):
     quick = tier == 'quick'
 
     # ======================================================================== part A
-    n_good = 260 if quick else 4000
-    n_bad = 60 if quick else 800
+    n_good = 120 if quick else 2500
+    n_bad = 40 if quick else 600
     cases = [gen_intake_case(rng, False) for _ in range(n_good)] + [gen_intake_case(rng, True) for _ in range(n_bad)]
     # the same streams again under other chunkings
     extra = []
     for c in cases[: n_good]:
-        for style in rng.sample(['one', 'bytes', 'small', 'mixed'], 2):
-            if style == 'bytes' and sum(len(s) for s in c['streams']) > 1500:
+        for style in rng.sample(['one', 'mixed'] if c['long'] else ['one', 'bytes', 'small', 'mixed'], 2):
+            if style == 'bytes' and sum(len(s) for s in c['streams']) > 1200:
                 style = 'small'
             per = [[['R', s, p] for p in cut(rng, stream, style)] for s, stream in enumerate(c['streams'])]
             evs = []
@@ -825,7 +835,7 @@ def check(tier, seed):
                 if rng.random() < 0.1:
                     evs.append(['P'])
             evs += [['P']] * rng.choice([0, 2, 1000])
-            extra.append({'streams': c['streams'], 'evs': evs, 'max': None, 'malformed': False, 'style': style})
+            extra.append({'streams': c['streams'], 'evs': evs, 'max': None, 'malformed': False, 'style': style, 'long': c['long']})
     cases += extra
     obs = []
     intake_fail = []
@@ -852,9 +862,12 @@ def check(tier, seed):
         shards.append(cur)
 
     def defs_a(idx):
-        return 'Definition cases := [' + ';\n'.join(coq_items[i] for i in idx) + '].\nEval vm_compute in (bad okc cases 0).\n'
+        return ('Definition cases : list (Z * list ev * list (Z * list Z) * list (Z * list Z) * list (option (list Z))) := ['
+                + ';\n'.join(coq_items[i] for i in idx) + '].\nEval vm_compute in (bad okc cases 0).\n')
 
+    t_mark = time.time()
     res = common.eval_cases(INTAKE_HEADER, defs_a, shards, 'c14a')
+    run.notes.append(f'coq intake: {len(shards)} shards {time.time() - t_mark:.1f}s')
     ok_a = all(rc == 0 for rc, _, _ in res)
     bad_a = []
     for shard, (rc, out, parsed) in zip(shards, res):
@@ -878,9 +891,12 @@ def check(tier, seed):
         sshards.append(cur)
 
     def defs_s(idx):
-        return 'Definition cases := [' + ';\n'.join(spec_items[i] for i in idx) + '].\nEval vm_compute in (bad okspec cases 0).\n'
+        return ('Definition cases : list (list Z * list (list Z)) := [' + ';\n'.join(spec_items[i] for i in idx)
+                + '].\nEval vm_compute in (bad okspec cases 0).\n')
 
+    t_mark = time.time()
     res_s = common.eval_cases(INTAKE_HEADER, defs_s, sshards, 'c14s')
+    run.notes.append(f'coq spec: {len(sshards)} shards {time.time() - t_mark:.1f}s')
     ok_s = all(rc == 0 for rc, _, _ in res_s)
     bad_s = []
     for shard, (rc, out, parsed) in zip(sshards, res_s):
@@ -931,6 +947,29 @@ def check(tier, seed):
     run.obligation('real limit: a line of exactly MAX_COMMAND_SIZE characters is accepted whatever the read size, a line 20000 over it ends the process',
                    big_ok, big_detail)
 
+    # small scope, exhaustive: EVERY way of cutting a short stream into reads (implementation side only)
+    small = b'a b\n\ndebug x\r\n[c]\nd'[: (13 if quick else 17)]
+    want_small = py_commands(small)
+    ex_bad, ex_n = [], 0
+    for mask in range(1 << (len(small) - 1)):
+        parts, start = [], 0
+        for k in range(1, len(small)):
+            if mask >> (k - 1) & 1:
+                parts.append(small[start:k])
+                start = k
+        parts.append(small[start:])
+        c = {'streams': [small], 'evs': [['R', 0, p] for p in parts] + [['P']] * 8, 'max': None, 'malformed': False}
+        executed, queue, bufs = run_intake_impl(c)
+        ex_n += 1
+        if [normalise(x) for _, x in executed + queue] != want_small or bufs[0] != small.decode().split('\n')[-1]:
+            ex_bad.append(parts)
+    run.obligation(f'property oracle (intake, exhaustive small scope): all {ex_n} chunkings of the {len(small)}-byte stream {small!r} give the same '
+                   'commands and the same unterminated rest', not ex_bad, f'{len(ex_bad)} chunkings differ; first: {ex_bad[:1]}')
+    if ex_bad:
+        run.fail_case('intake:chunking-changes-commands', f'the stream {small!r} cut as {ex_bad[0]} gives other commands than its lines',
+                      {'streams': [list(small)], 'max': None, 'evs': [['R', 0, list(p)] for p in ex_bad[0]] + [['P']] * 8})
+    run.coverage['exhaustive_small_scope'] = {'stream': small.decode(), 'chunkings': ex_n}
+    run.notes.append(f'part A done at {time.time() - run.t0:.1f}s')
     # ======================================================================== part B
     nseq = 170 if quick else 3000
     seqs = []
@@ -957,6 +996,7 @@ def check(tier, seed):
     kind_hist = collections.Counter()
     ncmd = 0
     unexpected = collections.Counter()
+    unexpected_examples = []
     addrs = [n['ip'] for n in NEIGHBORS]
     sample_done = False
     for si, (version, cmds, chunk_seed) in enumerate(seqs):
@@ -976,6 +1016,8 @@ def check(tier, seed):
             hist[label] += 1
             if text is None:
                 unexpected[label] += 1
+                if unexpected[label] <= 3:
+                    unexpected_examples.append({'label': label, 'api': version, 'line': c['line'], 'replies': st['replies'][-2:]})
             elif st['i'] in flagged:
                 hist['flagged-by-property-oracle(not compared)'] += 1
             else:
@@ -991,17 +1033,22 @@ def check(tier, seed):
             run.samples.append({'api_version': version, 'commands': [
                 {'line': s['line'], 'replies': s['replies'][-2:], 'changed': s['changed']} for s in res_b.steps[:6]]})
 
+    run.notes.append(f'part B implementation runs done at {time.time() - run.t0:.1f}s')
     header_b = EXEC_HEADER % coq_neighbors()
     eshards = common.chunked(list(range(len(exec_items))), 150)
     sshards2 = common.chunked(list(range(len(sel_items))), 400)
 
     def defs_e(idx):
-        return 'Definition cases := [' + ';\n'.join(exec_items[i] for i in idx) + '].\nEval vm_compute in (bad okc cases 0).\n'
+        return ('Definition cases : list (ribs * bool * outcome * ribs * bool * list Z) := [' + ';\n'.join(exec_items[i] for i in idx)
+                + '].\nEval vm_compute in (bad okc cases 0).\n')
 
     def defs_l(idx):
-        return 'Definition cases := [' + ';\n'.join(sel_items[i] for i in idx) + '].\nEval vm_compute in (bad oksel cases 0).\n'
+        return ('Definition cases : list (list (list term) * list Z) := [' + ';\n'.join(sel_items[i] for i in idx)
+                + '].\nEval vm_compute in (bad oksel cases 0).\n')
 
+    t_mark = time.time()
     res_e = common.eval_cases(header_b, defs_e, eshards, 'c14e')
+    run.notes.append(f'coq exec: {len(eshards)} shards {time.time() - t_mark:.1f}s')
     res_l = common.eval_cases(header_b, defs_l, sshards2, 'c14l')
     ok_b = all(rc == 0 for rc, _, _ in res_e + res_l)
     bad_e, bad_l = [], []
@@ -1040,7 +1087,7 @@ def check(tier, seed):
     run.coverage.update({
         'evaluations': len(cases) + ncmd,
         'distinct_nontrivial': distinct,
-        'rule': f'intake: {n_good} random streams (0-20 lines, blank/debug/comment lines, tabs, CRLF, brackets, 500-3000 character lines, '
+        'rule': f'intake: {n_good} random streams (0-9 lines, blank/debug/comment lines, tabs, CRLF, brackets, 500-3000 character lines, '
                 f'unterminated rest; 1-3 processes) each under 3 chunkings (single read, 1-byte reads, small and mixed reads incl. empty reads) '
                 f'with random pops + {n_bad} malformed (non-ASCII byte, limit lowered to 8-40); execution: {nseq} random sequences of 3-20 commands '
                 f'(60% API v6, 40% v4) fed as a chunked stream + {len(probes)} fixed probes; non-trivial = distinct sequences of at least 3 '
@@ -1052,6 +1099,7 @@ def check(tier, seed):
         'command_kind_histogram': dict(kind_hist),
         'outcome_class_histogram': dict(hist),
         'not_predictable_by_model': dict(unexpected),
+        'not_predictable_examples': unexpected_examples,
         'selector_cases': len(sel_items),
         'exhaustive': False,
     })
